@@ -232,9 +232,10 @@ def c03_script(rng, sizes, kind, rule, n_cases, exhaustive_single=False, sto='E'
         for a in gen.all_minterms(sizes, rel):
             v = rng.choice(pal)
             S.coll(e, f, 'ONE', dflt0, [(v, a)])
+    vpal = pal + ([INF, INF] if KINDS[kind][2] == 'EP' else [])        # +infinity is a legal minterm value in EV+
     for _ in range(n_cases):
         n = rng.choice([1, 1, 2, 2, 3, 4, 6, 10, 24])
-        mts = [(rng.choice(pal), gen.rand_minterm(rng, sizes, rel)) for _ in range(n)]
+        mts = [(rng.choice(vpal), gen.rand_minterm(rng, sizes, rel)) for _ in range(n)]
         mode, dflt = gen.pick_mode_default(rng, kind, [v for v, _ in mts])
         if n == 1 and rng.random() < 0.5:
             mode = 'ONE'
@@ -273,6 +274,15 @@ def plan_c03(tier, seed, rng):
                 scripts.append(('r%03d' % n, c03_script(rng, sizes, kind, rule, 40 if tier == 'thorough' else 14,
                                                         sto=rng.choice(['E', 'F', 'S']))))
                 n += 1
+    # constructions in forests whose variables were reordered (variable number != level)
+    import itertools
+    for kind in ['mtb_s', 'mti_s', 'evp_s', 'mti_r']:
+        rel = KINDS[kind][0] == 'R'
+        K = 2 if rel else 3
+        sizes = rng.sample([2, 3, 4], K) if not rel else rng.sample([2, 3], K)
+        allp = [p for p in itertools.permutations(range(1, K + 1)) if list(p) != list(range(1, K + 1))]
+        scripts.append(('o%03d' % n, c13_script(rng, sizes, kind, rng.choice(gen.rules_of(kind)), 'SD', 'V', rng.sample(allp, min(2, len(allp))))))
+        n += 1
     return dict(
         scripts=scripts, validators=[API, STORE], tags={'C03'},
         rule='every single minterm (fixed / don\'t-care / don\'t-change in every position) on tiny shapes per forest kind x reduction rule, '
@@ -849,13 +859,97 @@ def rel_script(rng, sizes, skind, rules, rkind, rrule, cases, clear=False, same=
     return Sx.text()
 
 
+def rel_rank(frm, to, sizes):
+    """rank of the relation entry frm -> to (digits by level, level 1 first)"""
+    r, mul = 0, 1
+    for k, s in enumerate(sizes):
+        r += to[k] * mul
+        mul *= s
+        r += frm[k] * mul
+        mul *= s
+    return r
+
+
+def set_digits(r, sizes):
+    d = []
+    for s in sizes:
+        d.append(r % s)
+        r //= s
+    return d
+
+
+def struct_relation(rng, sizes, pal=None):
+    """a relation that is a product of per-level relations, each level being the
+    identity (x' = x), unconstrained (any x -> any x'), or an arbitrary matrix;
+    the value of an entry depends only on the digits of the arbitrary levels.
+    These are the relations whose diagrams skip levels (identity-reduced: identity
+    levels; fully-reduced: unconstrained levels)."""
+    K = len(sizes)
+    types = [rng.choice(['id', 'id', 'full', 'rand']) for _ in range(K)]
+    if 'rand' not in types and rng.random() < 0.7:
+        types[rng.randrange(K)] = 'rand'
+    mats = []
+    for k, s in enumerate(sizes):
+        if types[k] == 'id':
+            mats.append([[1 if i == j else 0 for j in range(s)] for i in range(s)])
+        elif types[k] == 'full':
+            mats.append([[1] * s for _ in range(s)])
+        else:
+            dens = rng.choice([0.2, 0.4, 0.7])
+            mats.append([[1 if rng.random() < dens else 0 for _ in range(s)] for _ in range(s)])
+    n = points_of(sizes, False)
+    T = [0] * (n * n)
+    vals = {}
+    for a in range(n):
+        fa = set_digits(a, sizes)
+        for b in range(n):
+            tb = set_digits(b, sizes)
+            if all(mats[k][fa[k]][tb[k]] for k in range(K)):
+                key = tuple((fa[k], tb[k]) for k in range(K) if types[k] == 'rand')
+                if key not in vals:
+                    vals[key] = 1 if pal is None else rng.choice(pal)
+                T[rel_rank(fa, tb, sizes)] = vals[key]
+    return T
+
+
+def lift_table(rng, sizes, maker):
+    """a function over `sizes` that depends only on a random subset of the levels:
+    maker(npts) builds a table over the reduced shape, which is then extended"""
+    K = len(sizes)
+    dep = [k for k in range(K) if rng.random() < 0.5]
+    sub = [sizes[k] for k in dep]
+    base = maker(points_of(sub, False))
+    T = []
+    for r in range(points_of(sizes, False)):
+        d = set_digits(r, sizes)
+        x, mul = 0, 1
+        for k in dep:
+            x += d[k] * mul
+            mul *= sizes[k]
+        T.append(base[x])
+    return T
+
+
 def rand_relation(rng, sizes, kind='mtb_r', pal=None):
     n = points_of(sizes, False)
     npts = n * n
-    style = rng.choice(['sparse', 'dense', 'selfloops', 'identityish', 'deadends'])
-    dens = {'sparse': 0.08, 'dense': 0.4, 'selfloops': 0.12, 'identityish': 0.1, 'deadends': 0.15}[style]
+    style = rng.choice(['sparse', 'dense', 'selfloops', 'deadends', 'product', 'product'])
+    if style == 'product' and len(sizes) > 1:
+        return struct_relation(rng, sizes, pal)
+    dens = {'sparse': 0.08, 'dense': 0.4, 'selfloops': 0.12, 'deadends': 0.3, 'product': 0.2}[style]
     v = lambda: 1 if pal is None else rng.choice(pal)
     T = [v() if rng.random() < dens else 0 for _ in range(npts)]
+    if style == 'selfloops':
+        for a in range(n):
+            d = set_digits(a, sizes)
+            if rng.random() < 0.7:
+                T[rel_rank(d, d, sizes)] = v()
+    if style == 'deadends':
+        for a in range(n):
+            if rng.random() < 0.4:
+                d = set_digits(a, sizes)
+                for b in range(n):
+                    T[rel_rank(d, set_digits(b, sizes), sizes)] = 0
     return T
 
 
@@ -873,7 +967,7 @@ def plan_c09(tier, seed, rng):
         setups.append(('mti_s', (rng.choice('FQ'), rng.choice('FQ')), 'mti_r', rr, ['VM_MULTIPLY', 'MV_MULTIPLY']))
         setups.append(('mtr_s', (rng.choice('FQ'), rng.choice('FQ')), 'mtr_r', rr, ['VM_MULTIPLY', 'MV_MULTIPLY']))
     for (sk, rules, rk, rr, ops) in setups:
-        shapes = [[2], [3]] + ([[2, 2], [3, 2], [2, 3]] if tier == 'thorough' else [rng.choice([[2, 2], [3, 2], [2, 3], [2, 2, 2]])])
+        shapes = [[2], [3]] + ([[2, 2], [3, 2], [2, 3], [4, 2], [2, 2, 2], [3, 2, 2]] if tier == 'thorough' else rng.sample([[3, 2], [2, 3], [2, 2, 2], [4, 2], [3, 2, 2]], 2))
         for sizes in shapes:
             ns = points_of(sizes, False)
             cases = []
@@ -886,11 +980,13 @@ def plan_c09(tier, seed, rng):
             else:
                 for _ in range(reps):
                     if sk == 'mtb_s':
-                        T = rand_table(rng, sk, ns)
+                        mk = lambda npts: rand_table(rng, sk, npts)
                     elif 'MULTIPLY' in ops[0]:
-                        T = rand_table(rng, sk, ns, [-3, 1, 2, 5] if sk == 'mti_s' else [-128, 32, 64, 96], p_default=0.4)
+                        mk = lambda npts: rand_table(rng, sk, npts, [-3, 1, 2, 5] if sk == 'mti_s' else [-128, 32, 64, 96], p_default=0.4)
                     else:
-                        T = dist_table(rng, sk, ns)
+                        mk = lambda npts: dist_table(rng, sk, npts)
+                    # half of the operands ignore some levels (diagrams that skip levels)
+                    T = lift_table(rng, sizes, mk) if (len(sizes) > 1 and rng.random() < 0.5) else mk(ns)
                     if rk == 'mtb_r':
                         R = rand_relation(rng, sizes)
                     else:
@@ -1723,6 +1819,16 @@ def c13_script(rng, sizes, kind, rule, heur, swap, perms, nedges=4):
         for e in es:
             S.add('card %d' % e)
             S.add('iter %d' % e)
+        # functions of single variables: variables are named by number, not by level
+        if rngt != 'B' or True:
+            for vh in range(1, len(sizes) + 1):
+                vs = sizes[vh - 1]
+                if rngt == 'B':
+                    terms = [rng.choice([0, 1]) for _ in range(vs)]
+                else:
+                    terms = [rng.choice([v for v in (pal or [1]) if v != INF] + [0]) for _ in range(vs)]
+                for pr in ([0, 1] if rel else [0]):
+                    S.add('var %d %d %d %d %d %s' % (tmp, f, vh, pr, len(terms), ' '.join(map(str, terms))))
         S.add('snap %d' % f)
         S.add('snap %d' % g)
         # the forest must still be usable: operations after the reordering
@@ -1757,7 +1863,7 @@ def plan_c13(tier, seed, rng):
                                 c13_script(rng, sizes, kind, rng.choice(rules), heur, swap, perms)))
                 n += 1
     return dict(
-        scripts=scripts, validators=[API, STORE], tags={'C13', 'HELD', 'C02', 'C11'}, timeout=25, asan=True,
+        scripts=scripts, validators=[API, STORE], tags={'C13', 'HELD', 'C02', 'C11', 'C03'}, timeout=25, asan=True,
         rule='per forest kind (MT boolean/integer/real sets, EV+ sets, MT boolean/integer relations) x scheduling heuristic (all eight) x swap method '
              '(relations: variable swap and level swap): several edges sharing nodes plus a warm compute table, then a sequence of target permutations '
              '(all 24 / 6 for small K in thorough); after each reordering every held edge is evaluated at every point and compared with PermuteFn of the '
